@@ -283,3 +283,10 @@ theorem C09_symbol_table_tie : C09_symbol_table_tie_stmt := armLexemes_symTable
 them), identifier start (`is_alphabetic` or `_`), digit, whitespace, `#`, unexpected symbol. -/
 def C09_scan_arm_order_stmt : Prop := Generated.scanArmOrder = scanArmOrderExpected
 theorem C09_scan_arm_order : C09_scan_arm_order_stmt := by unfold C09_scan_arm_order_stmt; decide
+
+/-- The inner loops of the scanner, read off `tokenizer.rs` on every run: an identifier continues over `is_alphanumeric() || '_'`
+(the model's `identCont`), a number over ASCII digits only (`isDigit`), and an integer literal's value is the arbitrary-precision
+decimal value of exactly the scanned bytes (`digitsValue`; no machine-word fast path). -/
+def C09_scan_loops_tie_stmt : Prop :=
+  Generated.scanLoops = scanLoopsExpected ∧ Generated.literalValue = literalValueExpected
+theorem C09_scan_loops_tie : C09_scan_loops_tie_stmt := by unfold C09_scan_loops_tie_stmt; decide +kernel
